@@ -168,7 +168,7 @@ class AMachine(Machine):
         cfg = case["cfg"]
         try:
             prog = a_sim.Program(cfg["arch"], cfg["program"])
-            smc = "smc" in cfg["features"] or any(a[1] == "hw" and a[2] == "code" for a in case["actions"])
+            smc = "smc" in cfg["features"] or any(a[1] == "hw" and a[2] in ("code", "reload") for a in case["actions"])
             backends = ["python", "gcc"] if (self.both_backends and cfg["backend"] == "gcc") else [cfg["backend"]]
             finals = {}
             for backend in backends:
@@ -336,14 +336,16 @@ class C22(AMachine):
     features = ["mem", "stack", "loop", "branch"]
     actors = ["host writer", "tuner", "debugger"]
     diverge_class = "stale-code"
-    expected_probes = ["host_write_code", "host_write_data", "tuner_set_options", "runs_completed"]
+    expected_probes = ["host_write_code", "host_write_data", "host_write_reload", "tuner_set_options", "runs_completed"]
 
     def gen_actions(self, rng, cfg, steer):
         acts = []
         for _ in range(rng.choice([0, 1, 2, 4])):
             cp = self._cp(rng)
             r = rng.random()
-            if r < 0.6:
+            if r < 0.12:
+                acts.append([cp, "hw", "reload", rng.randrange(64), [rng.getrandbits(8)]])
+            elif r < 0.6:
                 acts.append([cp, "hw", "code", rng.randrange(64), [rng.getrandbits(8)]])
             elif r < 0.8:
                 acts.append([cp, "hw", "data", rng.randrange(64), [rng.getrandbits(8) for _ in range(rng.randint(1, 4))]])
@@ -428,9 +430,10 @@ class C20(AMachine):
     gcc_share = 1.0
     gcc_fresh = 0.7
     gcc_pool = 10
-    quick_runs = 220
+    quick_runs = 110
     thorough_runs = 2500
-    expected_probes = ["both_backends_compared", "fault_stop", "bp_hit", "tuner_set_options", "runs_completed", "terminal_fault_runs"]
+    expected_probes = ["both_backends_compared", "fault_stop", "bp_hit", "tuner_set_options", "runs_completed", "terminal_fault_runs",
+                       "memory_breakpoint_added", "memory_breakpoint_hit", "memory_breakpoint_runs_judged"]
 
     def gen(self, rng, steer):
         case = AMachine.gen(self, rng, steer)
@@ -459,11 +462,23 @@ class C20(AMachine):
                 acts.append([cp, "bp_add", ["L", rng.randrange(16)] if rng.random() < 0.4 else rng.randrange(200), rng.randrange(3)])
             elif r < 0.8:
                 acts.append([cp, "bp_rm_addr", rng.randrange(8)])
-            elif r < 0.9:
+            elif r < 0.86:
                 acts.append([cp, "opt", rng.choice([1, 2, 3, 5, 8, 50]), rng.choice([0, 1, 2, 3, 7])])
-            else:
+            elif r < 0.91:
                 acts.append([cp, "stop"])
+            elif r < 0.98:
+                acts.append([rng.choice([1, 1, cp]), "mbp", rng.randrange(9), rng.randrange(4), rng.randrange(3)])
+            else:
+                acts.append([cp, "mbp_rm", rng.randrange(4)])
         return acts
+
+    def judge_end(self, run, ref, log, probes):
+        AMachine.judge_end(self, run, ref, log, probes)
+        if any(e[2].startswith("mbp") for e in run.events) and not run.terminal_fault and not run.fault_stops:
+            ok, cls, msg = a_sim.expected_memory_breakpoints(ref, run.events)
+            probes["memory_breakpoint_runs_judged"] = probes.get("memory_breakpoint_runs_judged", 0) + 1
+            if not ok:
+                raise Violation("C20/" + cls, "%s backend: %s" % (run.backend, msg), {"backend": run.backend})
 
 
 _MACHINES = {"C20": C20(), "C21": C21(), "C22": C22(), "C23": C23(), "C49": C49()}
